@@ -24,7 +24,9 @@ Record cfg := mkCfg {
   c_restores_ovf : bool;    (* T3: Live.stop puts the user's overflow mode back after its last refresh *)
   c_resets_shape : bool;    (* T3: stop() forgets the shape it drew (so that a later start() erases nothing) *)
   c_final_room : bool;      (* T3: _LiveRender crops the last frame of a transient display to H-1 rows *)
-  c_prog_crop : bool        (* T3: live_render.LiveRender crops what it renders to the page height *)
+  c_prog_crop : bool;       (* T3: live_render.LiveRender crops what it renders to the page height *)
+  c_catches_base : bool;    (* T3: the handler around Progress.start's refresh catches BaseException (or is a finally) *)
+  c_fault_base : bool       (* the injected exception is NOT an Exception subclass (KeyboardInterrupt, SystemExit) *)
 }.
 
 Record st := mkSt {
@@ -194,13 +196,18 @@ Inductive op :=
 | Start
 | Stop.
 
+(* does the handler around the first refresh of Progress.start() run for the injected exception?
+   (every other cleanup in start/stop is a `finally`, which does not care) *)
+Definition start_cleans (c : cfg) : bool :=
+  c_start_guarded c && (c_catches_base c || negb (c_fault_base c)).
+
 Definition start (c : cfg) (s : st) : st * bool :=
   if started s then (s, false)
   else
     let s1 := emit (set_flags s true (S (hooks s)) true) cursor_off in
     if c_progress c then
       let '(s2, raised) := refresh c s1 in
-      if raised && c_start_guarded c
+      if raised && start_cleans c
       then (emit (set_flags s2 false (pred (hooks s2)) false) cursor_on, true)
       else (s2, raised)
     else (s1, false).
@@ -254,9 +261,10 @@ Definition run_block (c : cfg) (f0 : list str) (pre : list (list str)) (body : l
     (s3, r2 || r3).
 
 (* the configuration the code in /repo has today *)
-Definition cfg_today (progress transient : bool) (o : ovf) (W H : Z) (fr fb : option nat) : cfg :=
+Definition cfg_today (progress transient : bool) (o : ovf) (W H : Z) (fr fb : option nat) (base : bool) : cfg :=
   mkCfg progress transient o W H fr fb progress_start_guarded live_stop_visible_unless_transient
         live_stop_restores_overflow
         (if progress then progress_stop_resets_shape else live_stop_resets_shape)
         live_transient_final_room
-        live_render_crops_to_page.
+        live_render_crops_to_page
+        start_cleanup_catches_base base.
